@@ -1028,10 +1028,15 @@ func (fc *fctx) rangeStmt(s *ast.RangeStmt, rest []ast.Stmt, k konts) string {
 		return fc.forStmt(f, rest, k)
 	}
 	pairs := fc.kind(s.X) == kPairs
-	if fc.kind(s.X) != kStrList && !pairs {
+	registry := false
+	if id, ok := s.X.(*ast.Ident); ok && id.Name == "knownSuites" && s.Value == nil && s.Key != nil {
+		// for name := range knownSuites: the names of the registry (Go's order is unspecified; the table's order here)
+		registry = true
+	}
+	if fc.kind(s.X) != kStrList && !pairs && !registry {
 		t.fail(s, "range over %s", fc.typeOf(s.X))
 	}
-	if s.Key != nil && !pairs {
+	if s.Key != nil && !pairs && !registry {
 		if id, ok := s.Key.(*ast.Ident); !ok || id.Name != "_" {
 			t.fail(s, "range with an index variable")
 		}
@@ -1042,11 +1047,21 @@ func (fc *fctx) rangeStmt(s *ast.RangeStmt, rest []ast.Stmt, k konts) string {
 	fc.needsFuel = true
 	*fc.nfor++
 	name := fmt.Sprintf("%s_loop%d", coqName(fc.q), *fc.nfor)
-	listExpr := fc.expr(s.X)
+	listExpr := ""
+	if registry {
+		listExpr = "(map fst known_suites)"
+	} else {
+		listExpr = fc.expr(s.X)
+	}
 	pre := fc.flush()
 	elem := "_"
 	if id, ok := s.Value.(*ast.Ident); ok && id.Name != "_" {
 		elem = fc.varName(t.info.Defs[id].(*types.Var))
+	}
+	if registry {
+		if id, ok := s.Key.(*ast.Ident); ok && id.Name != "_" {
+			elem = fc.varName(t.info.Defs[id].(*types.Var))
+		}
 	}
 	listT := "list bytes"
 	if pairs {
